@@ -82,6 +82,10 @@ const BLOCKS: &[(&str, &str, &str, &str, u32)] = &[
     ("bad mode value", "", ">> [mode]: nonsense", "\nstep @a{1}\n", MODES),
     ("bad define value", "first @a\n\n", ">> [define]: x y", "\n\nlast\n", MODES),
     ("bad duplicate value", "", ">> [duplicate]: maybe", "\nstep\n", MODES),
+    ("bad mode value after a front matter", "---\ntitle: T\n---\n\nfirst step\n\n", ">> [mode]: nonsense", "\nstep @a{1}\n", MODES),
+    ("bad mode value right after a step line, after a front matter", "---\ntitle: T\n---\nfirst step\n", ">> [mode]: nonsense", "\nstep @a{1}\n", MODES),
+    ("bad duplicate value right after a step line", "a step\n", ">> [duplicate]: maybe", "\nstep\n", MODES),
+    ("bad mode value right after a two-line step", "a step\nover two lines\n", ">> [mode]: nonsense", "\nstep\n", MODES),
     ("empty metadata key", "", ">> : value", "\nstep\n", 0),
     ("empty metadata key after a step", "a step\n\n", ">>: v", "\n", 0),
     ("malformed front matter", "", "---\nkey: [unclosed\n---", "\nstep @a{1}\n", 0),
